@@ -18,6 +18,7 @@ import (
 	"github.com/ipfs/go-graphsync"
 	"github.com/ipfs/go-graphsync/ipldutil"
 	gsmsg "github.com/ipfs/go-graphsync/message"
+	"github.com/ipfs/go-graphsync/panics"
 	"github.com/ipfs/go-graphsync/responsemanager/hooks"
 	"github.com/ipfs/go-graphsync/responsemanager/responseassembler"
 )
@@ -46,6 +47,7 @@ type ResponseTask struct {
 	Traverser      ipldutil.Traverser
 	Signals        ResponseSignals
 	ResponseStream ResponseStream
+	PanicCallback  panics.CallBackFn
 }
 
 // ResponseSignals are message channels to communicate between the manager and the QueryExecutor
@@ -181,7 +183,15 @@ func (qe *QueryExecutor) checkForUpdates(
 	}
 }
 
-func (qe *QueryExecutor) runTraversal(ctx context.Context, p peer.ID, taskData ResponseTask) error {
+func (qe *QueryExecutor) runTraversal(ctx context.Context, p peer.ID, taskData ResponseTask) (err error) {
+	// the storage read function of the link system (and the block hooks) are called on this worker
+	// goroutine rather than in the traverser's: a panic in them fails this response, like a panic
+	// during the traversal itself, instead of taking the process down
+	defer func() {
+		if rerr := panics.MakeHandler(taskData.PanicCallback)(recover()); rerr != nil {
+			err = rerr
+		}
+	}()
 	for {
 		traverser := taskData.Traverser
 		isComplete, err := traverser.IsComplete()
